@@ -44,12 +44,19 @@ pub fn run_one(run: u64, seed: u64) -> RunOut {
     cfg_b.connect_queue = *rng.pick(&[1u16, 2, 4]);
     cfg_a.receive_buffer = cfg_a.receive_buffer.max(8);
     cfg_b.receive_buffer = cfg_b.receive_buffer.max(8);
-    let netcfg = draw_netcfg(&mut rng);
+    let mut netcfg = draw_netcfg(&mut rng);
+    // back-pressure variant: B's path to the transport is clogged while B accepts (and the accept is cancelled)
+    let pressure = rng.chance(30);
+    if pressure {
+        cfg_b.shared_send_queue = 1;
+        cfg_b.transport_send_queue = 1;
+        netcfg.capacity = 1;
+    }
     let h1 = *rng.pick(&[0u64, 20, 50]);
     let victim = *rng.pick(&[0u64, 2, 3]);
     let k_pairs = rng.usize_below(cfg_a.max_ports.min(cfg_b.max_ports) as usize + 1).min(4);
     let traffic = rng.chance(70);
-    let leave_pending_connect = rng.chance(40);
+    let leave_pending_connect = pressure || rng.chance(60);
     let replay = json!({"run": run, "seed": seed, "cfg_a": cfg_json(&cfg_a), "cfg_b": cfg_json(&cfg_b), "net": netcfg_class(&netcfg),
         "h1_pct": h1, "victim_mod": victim, "pairs": k_pairs, "traffic": traffic, "pending_connect": leave_pending_connect});
     let mut out = RunOut::default();
@@ -145,17 +152,60 @@ pub fn run_one(run: u64, seed: u64) -> RunOut {
 
         // drop everything in PRNG order, interleaved with the network schedule
         rng.shuffle(&mut objs);
+        let stalls = !pressure && rng.chance(50);
+        let mut starved: Option<crate::simnet::Dir> = None;
+        let mut pressure_left = 0usize;
+        if pressure && objs.iter().any(|o| matches!(o.1, Obj::Request(_))) {
+            // B's port halves first (their drop notifications fill B's queues behind the stalled transport),
+            // then the request, then everything else
+            let (mut first, rest): (Vec<_>, Vec<_>) = objs.into_iter().partition(|o| o.0 == 'B' && matches!(o.1, Obj::Tx(_) | Obj::Rx(_)));
+            let (req, mut rest): (Vec<_>, Vec<_>) = rest.into_iter().partition(|o| matches!(o.1, Obj::Request(_)));
+            pressure_left = first.len() + req.len();
+            first.extend(req);
+            first.append(&mut rest);
+            objs = first;
+            net.set_starved(crate::simnet::Dir::BA, true);
+            starved = Some(crate::simnet::Dir::BA);
+            out.count("pressure_runs", 1);
+        }
         for (side, o) in objs {
-            drop_order.push(format!("{side}:{}", o.kind()));
-            if let Obj::Rx(mut rx) = o {
-                if rng.chance(30) {
-                    let _ = or_quiescent(rx.close()).await;
+            if pressure_left > 0 {
+                pressure_left -= 1;
+            } else if pressure {
+                if let Some(d) = starved.take() {
+                    net.set_starved(d, false);
                 }
-                drop(rx);
-            } else {
-                drop(o);
             }
-            match rng.below(4) {
+            // transport stalls make the dispatcher's event queue back up while handles are dropped
+            if stalls && rng.chance(25) {
+                match starved.take() {
+                    Some(d) => net.set_starved(d, false),
+                    None => {
+                        let d = if rng.chance(50) { crate::simnet::Dir::AB } else { crate::simnet::Dir::BA };
+                        net.set_starved(d, true);
+                        starved = Some(d);
+                    }
+                }
+            }
+            drop_order.push(format!("{side}:{}", o.kind()));
+            match o {
+                Obj::Rx(mut rx) => {
+                    if rng.chance(30) {
+                        let _ = or_quiescent(rx.close()).await;
+                    }
+                    drop(rx);
+                }
+                Obj::Request(req) if pressure || rng.chance(60) => {
+                    // an accept that is cancelled at a random poll (the request's fate is then decided by the drop)
+                    let n = rng.below(5) as u32;
+                    drop_order.push(format!("{side}:accept-cancelled@{n}"));
+                    let r = or_quiescent(crate::sched::CancelAt::new(req.accept(), n)).await;
+                    drop(r);
+                    out.count("cancelled_accepts", 1);
+                }
+                o => drop(o),
+            }
+            match if pressure_left > 0 { rng.below(3) } else { rng.below(4) } {
                 0 => {}
                 1 => tokio::task::yield_now().await,
                 2 => {
@@ -167,6 +217,9 @@ pub fn run_one(run: u64, seed: u64) -> RunOut {
                     settle().await;
                 }
             }
+        }
+        if let Some(d) = starved.take() {
+            net.set_starved(d, false);
         }
         settle().await;
 
